@@ -101,5 +101,15 @@ PostN(f, i, o) ==
      [] f = "mpn_sqrtrem_null" -> /\ o.s = ZISqrt(i.a) /\ Bool(o.rn, ZMul(o.s, o.s) # i.a)
      [] f = "mpn_perfect_square_p" -> Bool(o.ret, ZMul(ZISqrt(i.a), ZISqrt(i.a)) = i.a)
         \* ---- C06
-     [] f = "mpn_sizeinbase" -> TRUE
+     [] f = "mpn_get_str" ->      \* digit values written through the 62-character alphabet by the harness; leading zeros permitted
+           LET A62 == "0123456789ABCDEFGHIJKLMNOPQRSTUVWXYZabcdefghijklmnopqrstuvwxyz" IN
+           /\ Len(o.s) = o.ret /\ o.ret >= 1
+           /\ ZFromDigits(o.s, i.base, A62) = i.a
+           /\ ZLt(i.a, ZPow(ZFromInt(i.base), o.ret)) /\ (o.ret >= 3 => ZLe(ZPow(ZFromInt(i.base), o.ret - 2), i.a))
+           /\ (i.pow2 = 1 => o.after = i.a)                      \* input unchanged for power-of-two bases
+     [] f = "mpn_set_str" ->
+           LET A62 == "0123456789ABCDEFGHIJKLMNOPQRSTUVWXYZabcdefghijklmnopqrstuvwxyz" IN
+           /\ o.r = ZFromDigits(i.s, i.base, A62)
+           /\ (SubSeq(i.s, 1, 1) # "0" => o.rn = ZLimbCount(o.r))
+           /\ o.rn >= ZLimbCount(o.r)
 =============================================================================
